@@ -202,6 +202,17 @@ def execute(case, ctx):
     names['nest'] = nest
     for step, op in enumerate(case['ops']):
         ctx.step = step
+        # exponents stay capped at +-5000 along the chain too (a value like 1E+999972 fed to int / round is the listed
+        # known finding and takes half a minute): the host clamps what a step left behind
+        for k_, v_ in list(names.items()):
+            if isinstance(v_, Decimal) and v_.is_finite() and v_ != 0 and abs(v_.adjusted()) > 5000:
+                names[k_] = Decimal('1E+5000') if v_.adjusted() > 0 else Decimal('1E-5000')
+                ctx.stats['clamped_exponent'] += 1
+        cq = names.get('c')
+        if isinstance(cq, dict):
+            for k_, v_ in list(cq.items()):
+                if isinstance(v_, Decimal) and v_.is_finite() and v_ != 0 and abs(v_.adjusted()) > 5000:
+                    cq[k_] = Decimal('1E+5000') if v_.adjusted() > 0 else Decimal('1E-5000')
         prog = op['prog']
         src = lang.render(prog, op.get('style', 0))
         kind = op['kind']
